@@ -1,5 +1,5 @@
 import BHS.Props.C01
-import BHS.Props.SqlShape
+import BHS.Props.SqlShape.Add
 import BHS.Props.ChainSvc
 open BHS.Props.C01
 #print axioms C01_inv_init
